@@ -5,7 +5,8 @@
 set -u
 id="$1"; name="${2:-$1}"
 wt=/tmp/seed-$id; out=/tmp/seed-$id-out; dest=/verif/seeded/$name
-export CARGO_TARGET_DIR=/tmp/seed-$id-target
+export CARGO_TARGET_DIR=${CONFIRM_TARGET:-/tmp/seed-$id-target}
+export TMPDIR=/tmp/seed-$id-tmp; mkdir -p "$TMPDIR"
 mkdir -p "$dest"
 cp "$out/patch.diff" "$out/demo.diff" "$dest/" || exit 1
 cp "$out/notes.md" "$dest/agent-notes.md" 2>/dev/null
@@ -15,10 +16,11 @@ git apply "$dest/patch.diff" && git apply "$dest/demo.diff" || { echo "apply fai
 {
 echo "== with patch + demo"
 cargo test --offline 2>&1 | grep -E "^test .*(FAILED|failed)|test result" | head -20
-find /tmp -maxdepth 1 -name '.tmp*' -mmin +1 -exec rm -rf {} + 2>/dev/null
+rm -rf "$TMPDIR"; mkdir -p "$TMPDIR"
 git apply -R "$dest/patch.diff"
 echo "== without patch, with demo"
 cargo test --offline 2>&1 | grep -E "^test .*(FAILED|failed)|test result" | head -20
-find /tmp -maxdepth 1 -name '.tmp*' -mmin +1 -exec rm -rf {} + 2>/dev/null
+rm -rf "$TMPDIR"; mkdir -p "$TMPDIR"
 } | tee "$dest/confirm.log"
 git checkout -q -- . && git clean -fdq src
+rm -rf "$TMPDIR"
